@@ -40,8 +40,9 @@ CONFIG = {
              "queries/paths matching 0/1/many nodes incl. containers x file vs STDIN delivery (explicit '-' and implied) x "
              "YAML vs JSON input/output x dot vs slash notation x the main options of each tool (noise flags, "
              "--same/--onlysame/--quiet, document indexes, --output/--overwrite/--backup/--document-format/"
-             "--multi-doc-mode, --check/--saveto/--mustexist/--delete/--null/--backup, the result printing options of "
-             "yaml-paths) plus a malformed stream (bad option mixes, missing files, two '-', invalid expressions); "
+             "--multi-doc-mode, --config files with [defaults]/[rules]/[keys], --check/--saveto/--mustexist/--delete/--null/"
+             "--backup/--tag/--aliasof/--anchor/--mergekey/--file/--stdin/--random/--eyamlcrypt (stand-in cipher), the "
+             "result printing options of yaml-paths) plus a malformed stream (bad option mixes, missing files, two '-', invalid expressions); "
              "non-trivial = the run got past argument validation; distinct = distinct (tool, argv, files, stdin)."),
     "trusted_base": [
         "modelled, not verified: main()/validateargs()/print helpers of yamlpath/commands/yaml_{get,set,merge,diff,"
@@ -52,10 +53,12 @@ CONFIG = {
         "delete_gathered_nodes, Differ, Merger.merge_with, search_for_paths, get_search_term, Nodes.build_next_node",
         "documents are abstract identifiers in the model: the harness numbers documents by their plain data, so two "
         "documents with equal data are one identifier",
-        "not modelled: DEBUG output (stripped before comparison), message texts, YAML/JSON formatting bytes, EYAML, "
-        "--config files, --aliasof/--mergekey/--eyamlcrypt/--random/--file/--stdin/--tag of yaml-set (branch "
-        "selection is modelled, generators do not exercise them), how yaml-paths maps its alias/key options to "
-        "search_for_paths arguments",
+        "not modelled: DEBUG output (stripped before comparison), message texts, YAML/JSON formatting bytes, the "
+        "WARNING lines MergerConfig/DifferConfig print about a --config file, how yaml-paths maps its alias/key "
+        "options to search_for_paths arguments",
+        "oracles added for yaml-set: secrets.choice (deterministic stand-in in the harness computation and the "
+        "in-process run), the EYAML binary (harness/eyaml_standin.py), how ruamel's dump of the changed document ends "
+        "and what its text loads back to, the JSON view of a JSON write, the class open(--file) raises",
     ],
     "assumptions": [
         "the model is the code only as far as the correspondence run shows",
@@ -1714,7 +1717,9 @@ def run_script(case, facts):
         else:
             # "no STDIN document" means a terminal: give the script a pseudo-terminal nobody writes to
             # (never for a command line that names "-": it would wait for the terminal)
-            if any(x.strip() == "-" for x in case["argv"]):
+            # (nor for yaml-set --stdin: reading the VALUE from a terminal waits for the user as well)
+            if any(x.strip() == "-" for x in case["argv"]) or \
+                    (case["tool"] == "set" and any(x in ("-i", "--stdin") for x in case["argv"])):
                 return None
             m, sl = os.openpty()
             try:
